@@ -2,6 +2,7 @@
 #include <morfuse/Script/Level.h>
 #include <morfuse/Script/Context.h>
 #include <morfuse/Script/Archiver.h>
+#include <morfuse/Script/PredefinedString.h>
 
 using namespace mfuse;
 
@@ -310,12 +311,15 @@ void SimpleEntity::EventGetOrigin(Event& ev)
 
 void SimpleEntity::EventGetTargetname(Event& ev)
 {
-    ev.AddConstString(targetComp.GetTargetName());
+    // an entity without a name has the empty name (const string 0 names nothing)
+    const StringResolvable& name = targetComp.GetTargetName();
+    ev.AddConstString(name.IsEmpty() ? const_str(ConstStrings::Empty) : name.GetConstString());
 }
 
 void SimpleEntity::EventGetTarget(Event& ev)
 {
-    ev.AddConstString(targetComp.GetTarget());
+    const StringResolvable& target = targetComp.GetTarget();
+    ev.AddConstString(target.IsEmpty() ? const_str(ConstStrings::Empty) : target.GetConstString());
 }
 
 void SimpleEntity::EventSetAngle(Event& ev)
